@@ -1,5 +1,6 @@
 import AslModel.Date
 import AslProofs.Date
+import AslProofs.DateParse
 /-!
 # C19 — Date converts between epoch seconds and UTC calendar fields as a bijection
 
@@ -13,7 +14,7 @@ that is 0 at 1970 and grows by the length of each year, and independently Hinnan
 Time values are integer milliseconds since 1970-01-01T00:00:00Z.
 -/
 namespace C19
-open AslModel.Date Gen.Date AslProofs.Date
+open AslModel.Date Gen.Date AslProofs.Date AslProofs.DateParse
 
 /-! ## specification -/
 namespace Cal
@@ -212,5 +213,21 @@ example : Cal.Valid 2000 2 29 23 59 59 := ⟨by decide, by decide, by decide, by
 example : calcF 951868799000 = ⟨2000, 2, 29, 23, 59, 59, 2⟩ := by decide
 example : construct 2000 2 29 23 59 59 = some 951868799000 := by decide
 example : t0 ≤ -62135596800000 := by decide
+
+/-! ## parsing any string is total and in bounds
+
+In the model a read `rd s i` beyond the terminator (`i > length`) makes the whole parse return `none`;
+`some none` is an invalid Date (NaN), `some (some t)` a value. -/
+
+/-- `Date(const String&)`: for every byte string, every read stays at an index `≤ length` and the parser returns
+an invalid Date or some value -/
+theorem parse_total (s : Bytes) : ∃ r, parse s = some r := parse_ok s
+
+/-- `Date(const String& str, const String& fmt)` likewise never leaves `str`, for every string and every format
+(the code before commit 2de0295 stepped over the terminator on `?` and is no longer the model) -/
+theorem parse_fmt_total (s fmt : Bytes) : ∃ r, parseFmt s fmt = some r := parseFmt_ok s fmt
+
+example : parse [120] = some none := by decide
+example : parseFmt [49, 50] [68, 63, 77, 63, 89] = some (some 0) := by decide
 
 end C19
